@@ -292,6 +292,9 @@ class ExprMixin:
         return outs[0].val
 
     def getattr_v(self, st: St, base: V, name: str, node=None) -> List[Out]:
+        if type(base).__name__ == 'KwDictV':
+            st = st.copy()
+            base = self.materialise_kwdict(st, base)
         if isinstance(base, ModuleV):
             if base.name in self.index.modules:
                 return self.ok(st, self.module_attr(st, self.index.modules[base.name], name))
@@ -431,7 +434,7 @@ class ExprMixin:
             print('DBG foreign', v, 'cls', v.cls, 'cfg', self.config.get('user_results_foreign'),
                   'ent', self.entails(st, z3.Select(st.CL, r) >= I(self.index.first_free_id), 3000),
                   'isref>=', self.entails(st, r >= I(self.index.first_free_id), 3000))
-        if v.cls is None and self.config.get('user_results_foreign') \
+        if v.cls is None and (self.config.get('user_results_foreign') or self.config.get('foreign_shortcut')) \
                 and self.entails(st, z3.Select(st.CL, r) >= I(self.index.first_free_id), 1500):
             return outs + self.getattr_resolved(st, v, name, ('heap', None), node)
         cands = self.candidate_classes(st, v)
